@@ -159,6 +159,8 @@ func init() {
 		Funcs:   poolFuncs(),
 		Select:  countObligation,
 		Trusted: poolTrusted,
+		// forwarded releases cross the HTTP layer (trusted frame): bounded stand-in on the real code
+		BoundedChecks: []BoundedCheck{httpForwardingBounded},
 		Undecided: []string{
 			"DHCPv4 / DHCPv6 pools: release and quarantine are decided under C02 / C16",
 			"utilisation percentage (floating point)",
